@@ -28,13 +28,17 @@ def expand(case_line):
     p1, p2, fix = int(p1), int(p2), fix == '1'
     b = bytearray(bytes.fromhex(hx))
     star = b.rfind(b'*')
+    b0 = 1
+    if b[:1] == b'\\':
+        j = b.find(b'\\', 1)
+        b0 = j + 2 if j >= 0 else 1
     out = []
     for y in range(256):
         for z in range(256):
             b[p1] = y; b[p2] = z
-            if fix and star >= 1 and star + 2 < len(b):
+            if fix and star >= b0 and star + 2 < len(b):
                 x = 0
-                for v in b[1:star]: x ^= v
+                for v in b[b0:star]: x ^= v
                 b[star + 1] = HEXD[x >> 4]; b[star + 2] = HEXD[x & 15]
             out.append('H'); out.append('L 0 %s %s' % (d, bytes(b).hex()))
     return out
@@ -47,3 +51,22 @@ def adjacent(line, decode=0, fix=1, gaps=(1,), lo=1, hi=None):
 
 def is_sweep(x):
     return x.startswith(('A ', 'B '))
+
+def digest(tag, lines):
+    """the digest the harness and the driver print, recomputed from expanded token lines"""
+    h1, h2 = 2166136261, 0x9747b28c
+    for l in lines:
+        for ch in (l + '\n').encode('latin-1'):
+            h1 = ((h1 ^ ch) * 16777619) & 0xffffffff; h2 = ((h2 ^ ch) * 709607) & 0xffffffff
+    return '%s %08x%08x' % (tag, h1, h2)
+
+def self_check(case_line, impl_digest, model_digest, feat='std', prof='debug'):
+    """glue check: the digests printed for a sweep must be the digests of its expansion, computed
+    here from the ordinary per-line outputs of both executables"""
+    sub = expand(case_line)
+    io = [x for x, c_ in zip(c.run_impl(sub, feat, prof), sub) if c_ != 'H']
+    mo = [x for x, c_ in zip(c.run_model(sub, feat, 'asis'), sub) if c_ != 'H']
+    di, dm = digest(case_line[0], io), digest(case_line[0], mo)
+    if di != impl_digest or dm != model_digest:
+        raise RuntimeError('sweep self-check failed for %s: harness %s vs expansion %s; driver %s vs expansion %s'
+                           % (case_line[:60], impl_digest, di, model_digest, dm))
